@@ -817,6 +817,12 @@ func exec(c px.Context, op string, args []sx.Sexp) (res core.Result) {
 			panic(e)
 		}
 	}()
+	if op == "codec" && len(args) == 2 {
+		ensureCatalogue(c)
+		q := pcore.WithParent(context.Background(), px.NewParentedLoader(c.Loader()), nullLogger{}, c.ImplementationRegistry())
+		px.DoWithContext(q, func(ctx px.Context) { res = codec(ctx, args[0].Atom, args[1].MustStr()) })
+		return res
+	}
 	if op != "ser" || len(args) != 3 {
 		return core.Result{Out: "bad-op", Pred: "FAIL harness-bad-op " + op}
 	}
@@ -1060,6 +1066,46 @@ func diffKind(a, b px.Value) string {
 		}
 	}
 	return kindName(a)
+}
+
+var leafTypeName = map[string]string{"rx": "Regexp", "sv": "SemVer", "svr": "SemVerRange", "ts": "Timespan", "tm": "Timestamp",
+	"uri": "URI", "ty": "Type", "td": "Type"}
+
+// codec (implementation only): the real leaf codec on its own — what the deserializer does with {__ptype: T, __pvalue: s}
+// is ParseTypeValue(T) and px.New(type, s); the result must equal the original and print the same serialization string
+func codec(c px.Context, kind, src string) core.Result {
+	tags := []string{"codec:" + kind}
+	if !isLeafKind(kind) {
+		bad("leaf kind")
+	}
+	var v px.Value
+	if err := safely(func() { v = (&builder{c: c, memo: map[*node]px.Value{}, types: map[string]px.Value{}}).leaf(kind, src) }); err != nil {
+		return core.Result{Out: "unbuildable", Pred: "n/a", Tags: tags}
+	}
+	ss, ok := v.(px.SerializeAsString)
+	if !ok || !ss.CanSerializeAsString() {
+		return core.Result{Out: "not-string-serializable", Pred: "n/a", Tags: tags}
+	}
+	enc := ""
+	var back px.Value
+	if err := safely(func() {
+		enc = ss.SerializationString()
+		back = px.New(c, c.ParseType(leafTypeName[kind]), types.WrapString(enc))
+	}); err != nil {
+		r := core.Fail("codec-panic", "codec-"+kind, fmt.Sprintf("%q -> %q: %s", src, enc, oneLine(err)))
+		r.Tags = tags
+		return r
+	}
+	enc2 := ""
+	if bs, ok := back.(px.SerializeAsString); ok {
+		enc2 = bs.SerializationString()
+	}
+	if !px.Equals(v, back, nil) || !px.Equals(back, v, nil) || enc2 != enc {
+		r := core.Fail("codec-differs", "codec-"+kind, fmt.Sprintf("%q serializes as %q and comes back as %q (%s)", src, enc, enc2, back.String()))
+		r.Tags = tags
+		return r
+	}
+	return core.Result{Out: "ok", Pred: "ok", NonTrivial: true, Tags: tags}
 }
 
 func oneLine(e interface{}) string {
